@@ -1,5 +1,5 @@
 """C02 - lowest cloud layer and ceiling are never suppressed; NCD / NSC mean what they say."""
-from sa.rules import message, significance, flag, metarize
+from sa.rules import message, significance, flag, metarize, params
 
 LEVEL = 'other'
 
@@ -10,6 +10,8 @@ def check(ctx):
     flag.flag_definition(ctx, 'C02-R3')
     message.report_predicate(ctx, 'C02-R4')
     metarize.sorted_before_significance(ctx, 'C02-R4')
+    # R5: the MSA asked for per call (None = no MSA included) is the MSA the chunk works with
+    params.merge_routine(ctx, 'C02-R5')
     ctx.extra['explanation'] = (
         'With the table sorted by base (R4) and no row reported, a layer of >= 1 okta exists iff a significant row '
         'sits at/above the MSA, because the first >= 1 okta row is always flagged (R1); the exits of metar_msg are '
